@@ -439,6 +439,11 @@ L1 = {
 
 def run_l1(prop, tier):
     out = []
+    if tier == "thorough" and prop in ("C18", "C19"):
+        # unbounded number of adds: the index invariant (positions below len, posting lists increasing) by induction
+        r = apalache_inductive(os.path.join(SPEC, "apalache", "IndexInd.tla"))
+        log("[L1] apalache IndexInd inductive ok=%s %.0fs" % (r["ok"], r["wall_s"]))
+        out.append(r)
     for module, cfg, workers in L1.get(prop, {}).get(tier, []):
         r = mc_cached(module, cfg, "%s_%s" % (prop, cfg.replace(".cfg", "")), workers=workers, timeout=3000)
         log("[L1] %s/%s states=%d ok=%s cached=%s %.0fs" % (module, cfg, r["states"], r["ok"], r.get("cached"), r.get("wall_s", 0)))
